@@ -12,10 +12,11 @@ using refgfx::LBmp;
 const char* const PROP_ID = "C08";
 
 namespace {
-std::vector<uint8_t> write_bmp(const BitmapFile& b) { Stream::DynamicMemoryWriter w; b.WriteIndexed(w); std::vector<uint8_t> out(w.Length()); auto r = w.GetReader(); r.Read(out.data(), out.size()); return out; }
+std::vector<uint8_t> write_bmp(const BitmapFile& b) { Stream::DynamicMemoryWriter w; if ((b.pixels.size() + b.palette.size()) & 1) b.WriteIndexed(std::move(w)); /* the overload taking an rvalue writer */ else b.WriteIndexed(w); std::vector<uint8_t> out(w.Length()); auto r = w.GetReader(); r.Read(out.data(), out.size()); return out; }
 BitmapFile read_bmp(const std::vector<uint8_t>& v) {
 	uint8_t* heap = static_cast<uint8_t*>(malloc(v.size() ? v.size() : 1)); struct F { uint8_t* p; ~F() { free(p); } } g{heap};
 	if (!v.empty()) memcpy(heap, v.data(), v.size());
+	if (fnv1a(v.data(), v.size()) & 1) return BitmapFile::ReadIndexed(Stream::MemoryReader(heap, v.size()));   // the overload taking a temporary stream
 	Stream::MemoryReader r(heap, v.size()); return BitmapFile::ReadIndexed(r);
 }
 uint64_t absh(int32_t h) { return h < 0 ? uint64_t(-int64_t(h)) : uint64_t(h); }
